@@ -13,7 +13,7 @@ from typing import Optional
 from liquid import Environment
 from liquid.exceptions import LiquidError
 
-from vf.hx import excluded, finish
+from vf.hx import cint, excluded, finish, untraced
 
 PROPERTY = "C13"
 ENV = Environment()
@@ -480,12 +480,58 @@ def c13_tablerow_break(n: int, cols: int, bi: int, ki: int) -> bool:
     return finish(out == exp)
 
 
+# ---- a loop with an else block, in every placement x every kind of body -----------------------------------------------
+# (the else block is rendered exactly when no item is visited, wherever the loop stands and whatever its body writes)
+W_SHAPES = ["%s", "{%% if true %%}%s{%% endif %%}", "{%% unless false %%}%s{%% endunless %%}", "{%% case 1 %%}{%% when 1 %%}%s{%% endcase %%}",
+            "{%% for j in (1..1) %%}%s{%% endfor %%}", "{%% if true %%}{%% if true %%}%s{%% endif %%}{%% endif %%}",
+            "{%% capture z %%}%s{%% endcapture %%}<{{ z }}>", "{%% if false %%}{%% else %%}%s{%% endif %%}",
+            "{%% tablerow j in (1..1) %%}%s{%% endtablerow %%}", "{%% ifchanged %%}%s{%% endifchanged %%}"]
+B_SHAPES = [("[{{ i }}]", lambda i: "[%d]" % i), ("{% assign s = i %}", lambda i: ""), ("{% capture c %}{{ i }}{% endcapture %}", lambda i: ""),
+            ("{% if false %}x{% endif %}", lambda i: ""), ("{% assign s = i %}{% if i == 1 %}one{% endif %}", lambda i: "one" if i == 1 else "")]
+L_SHAPES = ["{%% for i in xs limit: l offset: o %%}%s{%% else %%}E{%% endfor %%}", "{%% for i in xs %%}%s{%% else %%}E{%% endfor %%}",
+            "{%% for i in xs reversed %%}%s{%% else %%}{{ 'E' }}{%% endfor %%}"]
+T_ELSE = {}
+
+
+def else_case(w, bd, ls, n, limit, offset):
+    key = (w, bd, ls)
+    if key not in T_ELSE:
+        T_ELSE[key] = _t(W_SHAPES[w] % (L_SHAPES[ls] % B_SHAPES[bd][0]) + "|{{ s }}")
+    out = render(T_ELSE[key], xs=list(range(n)), l=limit, o=offset)
+    items = ref_indices(n, limit if ls == 0 else None, offset if ls == 0 else 0, ls == 2)
+    inner = "".join(B_SHAPES[bd][1](i) for i in items) if items else "E"
+    last = str(items[-1]) if items and bd in (1, 4) else ""
+    if w == 6:
+        inner = "<" + inner + ">"
+    elif w == 8:
+        inner = '<tr class="row1">\n<td class="col1">' + inner + "</td></tr>\n"
+    return out, inner + "|" + last
+
+
+def c13_for_else_placement(w: int, bd: int, ls: int, n: int, limit: int, offset: int) -> bool:
+    """
+    pre: 0 <= w <= 9 and 0 <= bd <= 4 and 0 <= ls <= 2 and 0 <= n <= 2 and -1 <= limit <= 2 and -1 <= offset <= 2
+    pre: ls == 0 or (limit == 0 and offset == 0)
+    post: _
+    """
+    if excluded("c13_for_else_placement", locals()):
+        return True
+    w, bd, ls, n, limit, offset = cint(w, 0, 9), cint(bd, 0, 4), cint(ls, 0, 2), cint(n, 0, 2), cint(limit, -1, 2), cint(offset, -1, 2)
+    out, exp = untraced(lambda: else_case(w, bd, ls, n, limit, offset))
+    return finish(out == exp)
+
+
+DETAIL = globals().get("DETAIL", {})
+DETAIL["c13_for_else_placement"] = lambda w, bd, ls, n, limit, offset: {"source": W_SHAPES[w] % (L_SHAPES[ls] % B_SHAPES[bd][0]) + "|{{ s }}", "xs": list(range(n)),
+                                                                        "limit": limit, "offset": offset, "observed_expected": else_case(w, bd, ls, n, limit, offset)}
+
 CONDITIONS = [
     {"fn": "c13_for_limit_offset", "quick": 60, "thorough": 240},
     {"fn": "c13_for_limit", "quick": 40, "thorough": 120},
     {"fn": "c13_for_offset", "quick": 40, "thorough": 120},
     {"fn": "c13_for_nil_args", "quick": 40, "thorough": 120},
     {"fn": "c13_for_plain", "quick": 30, "thorough": 60},
+    {"fn": "c13_for_else_placement", "quick": 90, "thorough": 200, "sel_only": True},
     {"fn": "c13_for_literal_args", "quick": 40, "thorough": 120},
     {"fn": "c13_for_string_args", "quick": 40, "thorough": 180},
     {"fn": "c13_for_break_continue", "quick": 60, "thorough": 240},
